@@ -51,15 +51,6 @@ def atomBody : Peg :=
 
 theorem rule_atom : RG.rule? "atom" = some { name := "atom", mod := .normal, body := atomBody } := by decide +kernel
 
-/-- the characters that open a statement or a compound -/
-def openerB (c : Char) : Bool := c == '<' || c == '(' || c == '{' || c == '['
-
-/-- an atom the grammar reads as the lexical parser does: the bare placeholder; or a prefix of punctuation /
-symbol characters (not beginning with `_` or an opening bracket) and a grammar name -/
-def gAtomOKB (pre name : Str) : Bool :=
-  if pre == ['_'] then name.isEmpty
-  else pre.all psB && (match pre with | c :: _ => !(c == '_') && !openerB c | [] => true) && gNameOKB name
-
 def contentTok (name : Str) : PTree := .node "atom_content" name []
 
 def atomKids (pre name : Str) : List PTree :=
@@ -154,24 +145,6 @@ structure GLayout (L : LFormat) : Prop where
   budgetR : L.budgetR = ['$']
   budgetSep : L.budgetSep = [';']
 
-/-- a copula the grammar's `copula` rule reads whole, and that cannot be taken for a blank or a placeholder -/
-def gCopOKB (cop : Str) : Bool :=
-  cop.length == 3 && gcopB cop && (match cop with | d :: _ => !wsB d && !(d == '_') | [] => false)
-
-def isNil : LTerms → Bool
-  | .nil => true
-  | _ => false
-
-mutual
-  def gTermOKB : LTerm → Bool
-    | .atom pre name => gAtomOKB pre name
-    | .compound conn ts => gConnB conn && !isNil ts && gTermsOKB ts
-    | .set l ts r => ((l == ['{'] && r == ['}']) || (l == ['['] && r == [']'])) && !isNil ts && gTermsOKB ts
-    | .stmt cop s p => gCopOKB cop && gTermOKB s && gTermOKB p
-  def gTermsOKB : LTerms → Bool
-    | .nil => true
-    | .cons t ts => gTermOKB t && gTermsOKB ts
-end
 
 mutual
   /-- the tree the grammar derives for a term -/
